@@ -82,7 +82,7 @@ Qed.
 
 Definition sym5 (l : list Z) : Prop := Forall (fun v => 0 <= v < 32) l.
 
-Definition run (S : Z) (l : list Z) : Z := fold_left polymod_step l S.
+Notation run S l := (fold_left polymod_step l S) (only parsing).
 
 Lemma polymod_step_linear' c c' v v' :
   polymod_step (Z.lxor c c') (Z.lxor v v') = Z.lxor (polymod_step c v) (polymod_step c' v').
@@ -108,14 +108,14 @@ Qed.
 Lemma run_linear_zero l : forall S S',
   run (Z.lxor S S') l = Z.lxor (run S (repeat 0 (length l))) (run S' l).
 Proof.
-  unfold run. induction l as [|x l IH]; intros S S'; cbn [fold_left length repeat]; [reflexivity|].
+  induction l as [|x l IH]; intros S S'; cbn [fold_left length repeat]; [reflexivity|].
   rewrite <- IH. f_equal.
   rewrite <- polymod_step_linear'. now rewrite Z.lxor_0_l.
 Qed.
 
 Lemma run_range l : forall S, sym5 l -> 0 <= S < 2 ^ 30 -> 0 <= run S l < 2 ^ 30.
 Proof.
-  unfold run. induction l as [|x l IH]; intros S Hl HS; cbn [fold_left]; [exact HS|].
+  induction l as [|x l IH]; intros S Hl HS; cbn [fold_left]; [exact HS|].
   inversion Hl; subst. apply IH; [assumption|]. now apply polymod_step_range.
 Qed.
 
@@ -150,7 +150,7 @@ Qed.
 
 Lemma run0_digits6 pm : 0 <= pm < 2 ^ 30 -> run 0 (digits6 pm) = pm.
 Proof.
-  intros Hpm. unfold digits6, run. cbn [seq map fold_left].
+  intros Hpm. unfold digits6. cbn [seq map fold_left].
   rewrite !digit_div by (cbn; lia). cbn [Z.of_nat Pos.of_succ_nat Pos.succ Z.sub Z.mul Z.opp Z.add Z.pos_sub Pos.pred_double Pos.mul Pos.add Z.pow Z.pow_pos Pos.iter Z.succ_double Z.pred_double Z.double].
   change (2 ^ 30) with 1073741824 in Hpm.
   set (q1 := pm / 32). set (q2 := pm / 1024). set (q3 := pm / 32768).
@@ -192,9 +192,28 @@ Proof. destruct spec; unfold spec_const, bech32m_const; lia. Qed.
 
 Lemma create_checksum_digits hrp data spec :
   create_checksum hrp data spec =
-  digits6 (Z.lxor (run (run 1 (hrp_expand hrp ++ data)) (repeat 0 6)) (spec_const spec)).
+  digits6 (Z.lxor (fold_left polymod_step (repeat 0 6%nat) (fold_left polymod_step (hrp_expand hrp ++ data) 1)) (spec_const spec)).
 Proof.
-  unfold create_checksum, digits6, bech32_polymod, run. rewrite fold_left_app. reflexivity.
+  unfold create_checksum, digits6, bech32_polymod. rewrite fold_left_app.
+  change (repeat 0 6) with [0;0;0;0;0;0]. reflexivity.
+Qed.
+
+Lemma digits6_length pm : length (digits6 pm) = 6%nat.
+Proof. unfold digits6. rewrite map_length, seq_length. reflexivity. Qed.
+
+Lemma verify_core S0 c : 0 <= S0 < 2 ^ 30 -> 0 <= c < 2 ^ 30 ->
+  fold_left polymod_step (digits6 (Z.lxor (fold_left polymod_step (repeat 0 6%nat) S0) c)) S0 = c.
+Proof.
+  intros HS0 Hc.
+  assert (HZ0 : 0 <= run S0 (repeat 0 6) < 2 ^ 30).
+  { apply run_range; [|exact HS0]. repeat constructor; lia. }
+  pose proof (run_linear_zero (digits6 (Z.lxor (run S0 (repeat 0 6)) c)) S0 0) as L.
+  rewrite digits6_length, Z.lxor_0_r in L.
+  remember (run S0 (repeat 0 6)) as Z0 eqn:EZ. clear EZ.
+  assert (Hpm : 0 <= Z.lxor Z0 c < 2 ^ 30) by (apply lxor_range; [lia|exact HZ0|exact Hc]).
+  rewrite run0_digits6 in L by exact Hpm.
+  rewrite L.
+  rewrite <- Z.lxor_assoc, Z.lxor_nilpotent, Z.lxor_0_l. reflexivity.
 Qed.
 
 Theorem checksum_verifies hrp data spec :
@@ -204,28 +223,180 @@ Proof.
   intros Hh Hd. unfold verify_checksum, bech32_polymod.
   rewrite create_checksum_digits.
   rewrite app_assoc, fold_left_app.
-  fold (run 1 (hrp_expand hrp ++ data)).
-  set (S0 := run 1 (hrp_expand hrp ++ data)).
-  assert (HS0 : 0 <= S0 < 2 ^ 30).
-  { apply run_range; [|cbn; lia]. apply Forall_app; split; [now apply hrp_expand_sym5|exact Hd]. }
-  set (Z0 := run S0 (repeat 0 6)).
-  assert (HZ0 : 0 <= Z0 < 2 ^ 30).
-  { apply run_range; [|exact HS0]. repeat constructor; lia. }
-  set (pm := Z.lxor Z0 (spec_const spec)).
-  assert (Hpm : 0 <= pm < 2 ^ 30) by (apply lxor_range; [lia|exact HZ0|apply spec_const_range]).
-  fold (run S0 (digits6 pm)).
-  rewrite <- (Z.lxor_0_r S0) at 1. rewrite run_linear_zero.
-  rewrite run0_digits6 by exact Hpm.
-  replace (length (digits6 pm)) with 6%nat by reflexivity.
-  fold Z0. unfold pm. rewrite <- Z.lxor_assoc, Z.lxor_nilpotent, Z.lxor_0_l.
-  destruct spec; reflexivity.
+  
+  rewrite verify_core.
+  - destruct spec; reflexivity.
+  - apply run_range; [|cbn; lia]. apply Forall_app; split; [now apply hrp_expand_sym5|exact Hd].
+  - apply spec_const_range.
 Qed.
 
 Lemma create_checksum_sym5 hrp data spec :
   sym5 (create_checksum hrp data spec) /\ length (create_checksum hrp data spec) = 6%nat.
 Proof.
-  rewrite create_checksum_digits. split; [|reflexivity].
+  rewrite create_checksum_digits. split; [|apply digits6_length].
   unfold digits6, sym5. rewrite Forall_forall. intros x Hx. apply in_map_iff in Hx.
   destruct Hx as [i [<- _]]. change 31 with (Z.ones 5). rewrite Z.land_ones by lia.
   change (2 ^ 5) with 32. lia.
+Qed.
+
+(* ------------------------------------------------------------------ *)
+(* 4. the character set                                                *)
+(* ------------------------------------------------------------------ *)
+
+Fixpoint nodupb (l : list Z) : bool :=
+  match l with
+  | [] => true
+  | x :: r => negb (existsb (Z.eqb x) r) && nodupb r
+  end.
+
+Lemma nodupb_sound l : nodupb l = true -> NoDup l.
+Proof.
+  induction l as [|x l IH]; cbn [nodupb]; intros H; constructor.
+  - apply andb_true_iff in H. destruct H as [H _]. apply negb_true_iff in H.
+    intros Hin. assert (existsb (Z.eqb x) l = true); [|congruence].
+    apply existsb_exists. exists x. split; [exact Hin|apply Z.eqb_refl].
+  - apply IH. apply andb_true_iff in H. tauto.
+Qed.
+
+Lemma notinb_sound c l : existsb (Z.eqb c) l = false -> ~ In c l.
+Proof.
+  intros H Hin. assert (existsb (Z.eqb c) l = true); [|congruence].
+  apply existsb_exists. exists c. split; [exact Hin|apply Z.eqb_refl].
+Qed.
+
+Lemma charset_facts : length bech32_charset = 32%nat /\ NoDup bech32_charset /\ ~ In 49 bech32_charset /\
+  Forall (fun c => 33 <= c <= 126 /\ lower c = c) bech32_charset.
+Proof.
+  split; [reflexivity|]. split; [apply nodupb_sound; vm_compute; reflexivity|].
+  split; [apply notinb_sound; vm_compute; reflexivity|].
+  apply Forall_forall. intros c Hc.
+  assert (H : forallb (fun c => (33 <=? c) && (c <=? 126) && (lower c =? c)) bech32_charset = true)
+    by (vm_compute; reflexivity).
+  rewrite forallb_forall in H. specialize (H c Hc).
+  rewrite !andb_true_iff in H. destruct H as [[H1 H2] H3].
+  apply Z.leb_le in H1, H2. apply Z.eqb_eq in H3. tauto.
+Qed.
+
+Lemma find_charset_char d : 0 <= d < 32 -> find_char (charset_char d) bech32_charset = Some d.
+Proof.
+  intros Hd.
+  assert (H : forallb (fun d => match find_char (charset_char d) bech32_charset with
+                                | Some x => x =? d | None => false end)
+                      (map Z.of_nat (seq 0 32)) = true) by (vm_compute; reflexivity).
+  rewrite forallb_forall in H. specialize (H d).
+  assert (Hin : In d (map Z.of_nat (seq 0 32))).
+  { apply in_map_iff. exists (Z.to_nat d). split; [lia|]. apply in_seq. lia. }
+  specialize (H Hin). destruct (find_char (charset_char d) bech32_charset); [|discriminate].
+  apply Z.eqb_eq in H. now subst.
+Qed.
+
+Lemma charset_char_facts d : 0 <= d < 32 ->
+  33 <= charset_char d <= 126 /\ lower (charset_char d) = charset_char d /\ charset_char d <> 49.
+Proof.
+  intros Hd. destruct charset_facts as [HL [_ [H49 HF]]].
+  assert (Hin : In (charset_char d) bech32_charset).
+  { unfold charset_char. apply nth_In. rewrite HL. lia. }
+  rewrite Forall_forall in HF. specialize (HF _ Hin).
+  repeat split; try tauto. intros E. rewrite E in Hin. contradiction.
+Qed.
+
+(* ------------------------------------------------------------------ *)
+(* 5. decode (encode ...)                                              *)
+(* ------------------------------------------------------------------ *)
+
+Definition hrp_ok (hrp : list Z) : Prop :=
+  (1 <= length hrp)%nat /\ Forall (fun c => 33 <= c <= 126 /\ lower c = c /\ c <> 49) hrp.
+
+Lemma rfind_app c a : forall l i best,
+  rfind c (a ++ l) i best = rfind c l (i + Z.of_nat (length a)) (rfind c a i best).
+Proof.
+  induction a as [|x a IH]; intros l i best; cbn [app rfind length].
+  - f_equal. lia.
+  - rewrite IH. f_equal. lia.
+Qed.
+
+Lemma rfind_notin c l : forall i best, ~ In c l -> rfind c l i best = best.
+Proof.
+  induction l as [|x l IH]; intros i best Hn; cbn [rfind]; [reflexivity|].
+  rewrite IH by (intros H; apply Hn; now right).
+  destruct (Z.eqb_spec x c); [|reflexivity]. exfalso. apply Hn. now left.
+Qed.
+
+Lemma rfind_sep c a r : ~ In c r -> rfind c (a ++ c :: r) 0 None = Some (Z.of_nat (length a)).
+Proof.
+  intros Hn. rewrite rfind_app. cbn [rfind]. rewrite Z.eqb_refl.
+  rewrite rfind_notin by exact Hn. reflexivity.
+Qed.
+
+Lemma existsb_false_Forall {A} (f : A -> bool) l : Forall (fun x => f x = false) l -> existsb f l = false.
+Proof. induction 1 as [|x l Hx _ IH]; cbn [existsb]; [reflexivity|now rewrite Hx, IH]. Qed.
+
+Lemma map_id_Forall (f : Z -> Z) l : Forall (fun x => f x = x) l -> map f l = l.
+Proof. induction 1 as [|x l Hx _ IH]; cbn [map]; [reflexivity|now rewrite Hx, IH]. Qed.
+
+Lemma map_opt_find_charset dc : sym5 dc ->
+  map_opt (fun x => find_char x bech32_charset) (map charset_char dc) = Some dc.
+Proof.
+  induction 1 as [|x l Hx _ IH]; cbn [map map_opt]; [reflexivity|].
+  rewrite find_charset_char by exact Hx. rewrite IH. reflexivity.
+Qed.
+
+Definition char_ok (c : Z) : Prop := 33 <= c <= 126 /\ lower c = c.
+
+Lemma decode_core hrp dc data spec :
+  hrp_ok hrp -> sym5 dc -> length dc = (length data + 6)%nat -> firstn (length data) dc = data ->
+  verify_checksum hrp dc = Some spec -> (length hrp + 1 + length dc <= 90)%nat ->
+  bech32_decode (hrp ++ [49] ++ map charset_char dc) = Some (hrp, data, spec).
+Proof.
+  intros [Hlen Hh] Hdc Hl Hf Hv Hb.
+  set (body := map charset_char dc).
+  assert (Hbody : Forall (fun c => char_ok c /\ c <> 49) body).
+  { unfold body. apply Forall_forall. intros c Hc. apply in_map_iff in Hc.
+    destruct Hc as [d [<- Hd]]. unfold sym5 in Hdc. rewrite Forall_forall in Hdc.
+    pose proof (charset_char_facts d (Hdc d Hd)). unfold char_ok. tauto. }
+  assert (Hall : Forall char_ok (hrp ++ [49] ++ body)).
+  { apply Forall_app; split; [|apply Forall_app; split].
+    - eapply Forall_impl; [|exact Hh]. unfold char_ok. cbn beta. intros; tauto.
+    - constructor; [|constructor]. unfold char_ok. split; [lia|reflexivity].
+    - eapply Forall_impl; [|exact Hbody]. cbn beta. intros; tauto. }
+  assert (Hn49 : ~ In 49 body).
+  { intros Hin. rewrite Forall_forall in Hbody. destruct (Hbody _ Hin) as [_ H]. now apply H. }
+  assert (Hblen : length body = length dc) by (unfold body; apply map_length).
+  unfold bech32_decode.
+  set (s := hrp ++ [49] ++ body) in *.
+  assert (Hlow : map lower s = s).
+  { apply map_id_Forall. eapply Forall_impl; [|exact Hall]. unfold char_ok. cbn beta. intros; tauto. }
+  rewrite existsb_false_Forall.
+  2:{ eapply Forall_impl; [|exact Hall]. unfold char_ok. cbn beta. intros a [Ha _].
+      apply orb_false_iff. split; [apply Z.ltb_ge|apply Z.ltb_ge]; lia. }
+  rewrite Hlow. unfold list_eqb. rewrite bytes_eqb_refl. cbn [negb andb].
+  assert (Hslen : length s = (length hrp + 1 + length dc)%nat).
+  { unfold s. rewrite !app_length. cbn [length]. lia. }
+  unfold s at 1. cbn [app]. rewrite rfind_sep by exact Hn49.
+  replace ((Z.of_nat (length hrp) <? 1) || (Z.of_nat (length s) <? Z.of_nat (length hrp) + 7)
+           || (90 <? Z.of_nat (length s))) with false.
+  2:{ symmetry. rewrite !orb_false_iff. repeat split; apply Z.ltb_ge; lia. }
+  rewrite Nat2Z.id.
+  replace (firstn (length hrp) s) with hrp by (unfold s; now rewrite firstn_app_exact).
+  replace (skipn (length hrp + 1) s) with body.
+  2:{ unfold s. rewrite app_assoc. symmetry. apply skipn_app_len. rewrite app_length. reflexivity. }
+  unfold body. rewrite map_opt_find_charset by exact Hdc.
+  rewrite Hv. rewrite Hl. replace (length data + 6 - 6)%nat with (length data) by lia.
+  rewrite Hf. reflexivity.
+Qed.
+
+Theorem bech32_decode_encode hrp data spec : hrp_ok hrp -> sym5 data -> (length hrp + 1 + length data + 6 <= 90)%nat ->
+  bech32_decode (bech32_encode hrp data spec) = Some (hrp, data, spec).
+Proof.
+  intros Hh Hd Hlen. unfold bech32_encode.
+  destruct (create_checksum_sym5 hrp data spec) as [Hc5 Hc6].
+  assert (Hv : verify_checksum hrp (data ++ create_checksum hrp data spec) = Some spec).
+  { apply checksum_verifies; [|exact Hd]. destruct Hh as [_ Hh].
+    eapply Forall_impl; [|exact Hh]. cbn beta. intros; lia. }
+  generalize dependent (create_checksum hrp data spec). intros cs Hc5 Hc6 Hv.
+  apply decode_core; try assumption.
+  - apply Forall_app; split; assumption.
+  - rewrite app_length. lia.
+  - apply firstn_app_exact.
+  - rewrite app_length. lia.
 Qed.
